@@ -122,6 +122,11 @@ type world struct {
 	sigCache map[string][]byte // kind/h/r/target/signer -> signature bytes
 	tokens   map[string]uint64 // signature bytes -> token
 	bad      string
+
+	nviews       uint32
+	blockVer     map[string]uint32
+	blockSeen    map[string]string
+	blockChanges map[string]uint32
 }
 
 func newWorld() *world {
@@ -258,6 +263,39 @@ func (w *world) view(v *jView) *tmconsensus.VersionedRoundView {
 	}
 	out.PrevoteProofs = w.proofMap(false, v.H, v.R, v.PV)
 	out.PrecommitProofs = w.proofMap(true, v.H, v.R, v.PC)
+	// Version metadata as the mirror fills it in. The strategy must not rely on it: the mirror bumps the overall
+	// version on every change, but a per-block version can stay the same while the block's proof changes (commit-proof
+	// backfill, replayed headers), so every fourth change of a block's proof keeps its block version here.
+	w.nviews++
+	out.Version = w.nviews
+	out.PrevoteVersion, out.PrecommitVersion = w.nviews, w.nviews
+	out.PrevoteBlockVersions = w.blockVersions("pv", v.H, v.R, v.PV)
+	out.PrecommitBlockVersions = w.blockVersions("pc", v.H, v.R, v.PC)
+	return out
+}
+
+func (w *world) blockVersions(kind string, h uint64, r uint32, ps []jProof) map[string]uint32 {
+	if len(ps) == 0 {
+		return nil
+	}
+	if w.blockVer == nil {
+		w.blockVer = map[string]uint32{}
+		w.blockSeen = map[string]string{}
+		w.blockChanges = map[string]uint32{}
+	}
+	out := make(map[string]uint32, len(ps))
+	for _, p := range ps {
+		k := fmt.Sprintf("%s/%d/%d/%d", kind, h, r, p.Target)
+		content := fmt.Sprint(p.KeyHash, p.Sigs)
+		if w.blockSeen[k] != content {
+			w.blockSeen[k] = content
+			w.blockChanges[k]++
+			if w.blockVer[k] == 0 || w.blockChanges[k]%4 != 0 {
+				w.blockVer[k]++
+			}
+		}
+		out[targetHash(p.Target)] = w.blockVer[k]
+	}
 	return out
 }
 
